@@ -62,10 +62,10 @@ class Site:
         self.key = self.shape = self.guards = self.verdict = self.why = None
 
 
-def inventory(facts):
+def inventory(facts, crate="marwood"):
     sites = []
     for p, f in sorted(facts.fns.items()):
-        if f.crate != "marwood":
+        if f.crate != crate:
             continue
         for bb, b in enumerate(f.blocks):
             if b.get("cleanup") or bb not in f.reachable():
@@ -1124,6 +1124,38 @@ def r06a_restricted(ctx, rep, rule, prefixes, title, floor):
     rep.floor(rule, "panic-capable sites in %s" % ", ".join(short_path(x) for x in prefixes), n, floor)
 
 
+FRONT_CRATES = ("marwood_wasm", "marwood_repl")
+FRONT_GLUE = ("__wasm_bindgen", "wbg_", " as wasm_bindgen")
+
+
+def front_inventory(facts):
+    """panic-capable sites of the two front-end crates, without the code wasm-bindgen generates around them"""
+    return [s_ for cr in FRONT_CRATES for s_ in inventory(facts, cr) if not any(g in s_.fn.path for g in FRONT_GLUE)
+            and not covered_by_r08(s_)]
+
+
+def r06y(ctx, rep, rule="R06y"):
+    facts, cg = ctx["facts"], ctx["cg"]
+    rep.rule(rule, "the front ends are entry points too: the wasm object's methods (eval, check, highlight, autocomplete, last_token) "
+             "and the REPL's rustyline hooks take the user's text before the library does. The panic-site inventory of R06a, run "
+             "over those two crates (without wasm-bindgen's generated glue), must be discharged the same way — by an idiom "
+             "re-established on this run or by a reviewed entry keyed by function, operand shapes and dominating guards.")
+    sites = front_inventory(facts)
+    assign_keys(sites)
+    discharge(facts, cg, sites)
+    reviewed = load_reviewed()
+    for s_ in sites:
+        key = s_.key.replace("R06a", rule, 1)
+        if s_.verdict == "idiom":
+            rep.ok(rule, key, "%s in %s — %s" % (s_.what, s_.fn.short, s_.why), [s_.loc])
+        elif s_.key in reviewed:
+            rep.ok(rule, key, "%s in %s — reviewed: %s" % (s_.what, s_.fn.short, reviewed[s_.key]["reason"]), [s_.loc])
+        else:
+            rep.fail(rule, key, "%s in %s (%s) can panic on the user's text and no argument is on file%s" % (
+                s_.what, s_.fn.short, s_.shape, (" [guards: %s]" % ", ".join(s_.guards)) if s_.guards else ""), [s_.loc])
+    rep.floor(rule, "panic-capable sites in the front-end crates", len(sites), 4)
+
+
 def r06b(ctx, rep):
     facts, cg = ctx["facts"], ctx["cg"]
     rep.rule("R06b", "no mutable borrow is held across a call into the library: while a RefMut guard is live, only "
@@ -1441,6 +1473,7 @@ def run(ctx, rep):
     r06u(ctx, rep)
     r06w(ctx, rep)
     r06x(ctx, rep)
+    r06y(ctx, rep)
     # R06v: the n-ary list walks of the prelude need a list to end on
     from . import C14
     sub = type(rep)(rep.prop)
